@@ -8,6 +8,12 @@ use std::future::Future;
 use std::pin::Pin;
 use std::task::{Context, Poll};
 
+static ALL_PANICS: std::sync::Mutex<Vec<String>> = std::sync::Mutex::new(Vec::new());
+
+pub fn all_panics() -> Vec<String> {
+    ALL_PANICS.lock().map(|v| v.iter().rev().take(3).cloned().collect()).unwrap_or_default()
+}
+
 thread_local! {
     static TRACK: Cell<bool> = const { Cell::new(false) };
     static MAX_REQ: Cell<usize> = const { Cell::new(0) };
@@ -88,6 +94,11 @@ pub fn install_panic_hook() {
         // a panic inside a tracked poll must not leave tracking on for harness code
         let _ = TRACK.try_with(|t| t.set(false));
         let msg = format!("{info}");
+        if let Ok(mut all) = ALL_PANICS.lock() {
+            if all.len() < 1000 {
+                all.push(msg.clone());
+            }
+        }
         let _ = PANICS.try_with(|p| p.borrow_mut().push(msg));
     }));
 }
